@@ -110,14 +110,14 @@ Definition ctD (t : nat) := [mkCm 7 8 (Some t)].
 
 Example C02_domain_nonempty :
   prog_dom gen_cfg exA 1 ctA
-    [mkStep exB 2 (ctB 1) (OnNames ["k"]) "left_outer" false;
-     mkStep exD 4 (ctD 2) (OnExprs [UBin Eq (UCol (RDf 1 3 false "v")) (UCol (RDf 2 7 false "k2"))]) "inner" false;
-     mkStep exC 3 (ctC 3) (OnNames ["k"]) "semi" false]
+    [mkStep exB 2 (ctB 1) (OnNames ["k"]) "left_outer" false None;
+     mkStep exD 4 (ctD 2) (OnExprs [UBin Eq (UCol (RDf 1 3 false "v")) (UCol (RDf 2 7 false "k2"))]) "inner" false None;
+     mkStep exC 3 (ctC 3) (OnNames ["k"]) "semi" false None]
     (FSelect [(UCol (RName "k"), "k"); (UCol (RDf 1 3 false "v"), "bv"); (UBin Add (UCol (RDf 0 1 false "v")) (ULit (VInt 1)), "av1")]) = true
-  /\ prog_dom gen_cfg exA 1 ctA [mkStep exB 2 (ctB 1) (OnNames ["k"; "v"]) "full" false] FNone = true
-  /\ prog_dom gen_cfg exA 1 ctA [mkStep exB 2 (ctB 1) OnNone "cross" false] (FWhere (UBin Gt (UCol (RDf 1 3 false "v")) (ULit (VInt 100)))) = true
-  /\ right_dom exA 1 ctA (mkStep exD 4 (ctD 1) (OnExprs [UBin Eq (UCol (RDf 0 1 false "k")) (UCol (RDf 1 7 false "k2"))]) "right_outer" false) = true
-  /\ right_dom exA 1 ctA (mkStep exC 3 (ctC 1) (OnNames ["k"]) "right" false) = true.
+  /\ prog_dom gen_cfg exA 1 ctA [mkStep exB 2 (ctB 1) (OnNames ["k"; "v"]) "full" false None] FNone = true
+  /\ prog_dom gen_cfg exA 1 ctA [mkStep exB 2 (ctB 1) OnNone "cross" false None] (FWhere (UBin Gt (UCol (RDf 1 3 false "v")) (ULit (VInt 100)))) = true
+  /\ right_dom exA 1 ctA (mkStep exD 4 (ctD 1) (OnExprs [UBin Eq (UCol (RDf 0 1 false "k")) (UCol (RDf 1 7 false "k2"))]) "right_outer" false None) = true
+  /\ right_dom exA 1 ctA (mkStep exC 3 (ctC 1) (OnNames ["k"]) "right" false None) = true.
 Proof. vm_compute. repeat split; reflexivity. Qed.
 
 (** * refutations of the full statement on the faithful model (each is replayed on the implementation by the check) *)
@@ -131,54 +131,54 @@ Ltac refute := unfold refutes; split; [reflexivity | split; [vm_compute; discrim
 Theorem C02_refuted_right_name_join : C02_full -> False.
 Proof.
   intro H.
-  assert (R : refutes exA ctA [mkStep exB 2 (ctB 1) (OnNames ["k"]) "right" false] FNone) by refute.
+  assert (R : refutes exA ctA [mkStep exB 2 (ctB 1) (OnNames ["k"]) "right" false None] FNone) by refute.
   destruct R as [R1 [R2 R3]]. rewrite (H _ _ _ _ _ R1 R2) in R3. discriminate.
 Qed.
 Print Assumptions C02_refuted_right_name_join.
 
 Theorem C02_refuted_right_expr_join :
-  refutes exA ctA [mkStep exB 2 (ctB 1) (OnExprs [UBin Eq (UCol (RDf 0 1 false "k")) (UCol (RDf 1 3 false "k"))]) "right_outer" false] FNone.
+  refutes exA ctA [mkStep exB 2 (ctB 1) (OnExprs [UBin Eq (UCol (RDf 0 1 false "k")) (UCol (RDf 1 3 false "k"))]) "right_outer" false None] FNone.
 Proof. refute. Qed.
 Print Assumptions C02_refuted_right_expr_join.
 
 (** no condition and a kind other than inner/cross: executed as a product *)
-Theorem C02_refuted_on_none_semi : refutes exA ctA [mkStep exB 2 (ctB 1) OnNone "semi" false] FNone.
+Theorem C02_refuted_on_none_semi : refutes exA ctA [mkStep exB 2 (ctB 1) OnNone "semi" false None] FNone.
 Proof. refute. Qed.
 Print Assumptions C02_refuted_on_none_semi.
 Theorem C02_refuted_on_none_left_empty_right :
-  refutes exA ctA [mkStep (mkFrame ["k"; "v"; "w"] []) 2 (ctB 1) OnNone "left" false] FNone.
+  refutes exA ctA [mkStep (mkFrame ["k"; "v"; "w"] []) 2 (ctB 1) OnNone "left" false None] FNone.
 Proof. refute. Qed.
 Print Assumptions C02_refuted_on_none_left_empty_right.
 
 (** spellings Spark lower-cases *)
-Theorem C02_refuted_upper_case_full : refutes exA ctA [mkStep exR 3 (ctC 1) (OnNames ["k"]) "FULL" false] FNone.
+Theorem C02_refuted_upper_case_full : refutes exA ctA [mkStep exR 3 (ctC 1) (OnNames ["k"]) "FULL" false None] FNone.
 Proof. refute. Qed.
 Print Assumptions C02_refuted_upper_case_full.
-Theorem C02_refuted_upper_case_left_semi : refutes exA ctA [mkStep exB 2 (ctB 1) (OnNames ["k"]) "LEFT_SEMI" false] FNone.
+Theorem C02_refuted_upper_case_left_semi : refutes exA ctA [mkStep exB 2 (ctB 1) (OnNames ["k"]) "LEFT_SEMI" false None] FNone.
 Proof. refute. Qed.
 Print Assumptions C02_refuted_upper_case_left_semi.
 
 (** the key of a full outer name join is the COALESCE only in the join's own select list *)
 Theorem C02_refuted_full_then_select_key :
-  refutes exA ctA [mkStep exR 3 (ctC 1) (OnNames ["k"]) "full" false] (FSelect [(UCol (RName "k"), "k"); (UCol (RName "u"), "u")]).
+  refutes exA ctA [mkStep exR 3 (ctC 1) (OnNames ["k"]) "full" false None] (FSelect [(UCol (RName "k"), "k"); (UCol (RName "u"), "u")]).
 Proof. refute. Qed.
 Print Assumptions C02_refuted_full_then_select_key.
 Theorem C02_refuted_full_then_name_join :
-  refutes exA ctA [mkStep exR 3 (ctC 1) (OnNames ["k"]) "full" false; mkStep exX 2 (ctB 2) (OnNames ["k"]) "full" false] FNone.
+  refutes exA ctA [mkStep exR 3 (ctC 1) (OnNames ["k"]) "full" false None; mkStep exX 2 (ctB 2) (OnNames ["k"]) "full" false None] FNone.
 Proof. refute. Qed.
 Print Assumptions C02_refuted_full_then_name_join.
 
 (** a right join later in a chain resolves left-to-right: the key is the left side's *)
 Theorem C02_refuted_right_join_not_first :
-  refutes exA ctA [mkStep exD 4 (ctD 1) (OnExprs [UBin Eq (UCol (RDf 0 1 false "k")) (UCol (RDf 1 7 false "k2"))]) "left" false;
+  refutes exA ctA [mkStep exD 4 (ctD 1) (OnExprs [UBin Eq (UCol (RDf 0 1 false "k")) (UCol (RDf 1 7 false "k2"))]) "left" false None;
                    mkStep (mkFrame ["k"; "u"] [[VInt 5; VInt 7]]) 3 (ctC 2) (OnNames ["k"]) "right" false] FNone.
 Proof. refute. Qed.
 Print Assumptions C02_refuted_right_join_not_first.
 
 (** a column dropped by a name join shifts the position-based resolution of a later table's same-named column *)
 Theorem C02_refuted_dropped_key_shifts :
-  refutes exA ctA [mkStep exB 2 (ctB 1) (OnNames ["k"]) "left" false;
-                   mkStep exC 3 (ctC 2) (OnExprs [UBin Eq (UCol (RDf 0 1 false "k")) (UCol (RDf 2 5 false "k"))]) "left" false] FNone.
+  refutes exA ctA [mkStep exB 2 (ctB 1) (OnNames ["k"]) "left" false None;
+                   mkStep exC 3 (ctC 2) (OnExprs [UBin Eq (UCol (RDf 0 1 false "k")) (UCol (RDf 2 5 false "k"))]) "left" false None] FNone.
 Proof. refute. Qed.
 Print Assumptions C02_refuted_right_name_join.
 Print Assumptions C02_refuted_dropped_key_shifts.
